@@ -245,7 +245,8 @@ def sample_of(scs, k=3):
 
 
 def l1_cov(stats):
-    return {'l1_states': sum(s['states'] for s in stats), 'l1_transitions': sum(s['transitions'] for s in stats),
+    return {'layouts_reachable_from_new': {str(n): scen.reach(n) for n in sorted({s['n'] for s in stats if s['n'] <= 5 and s.get('maxu', 1 << 30) > 100})},
+            'l1_states': sum(s['states'] for s in stats), 'l1_transitions': sum(s['transitions'] for s in stats),
             'l1_actions': {str(s['n']): s['actions'] for s in stats},
             'bounds': {'capacities': [s['n'] for s in stats], 'max_arg_len': [s['maxarg'] for s in stats]}}
 
@@ -300,6 +301,14 @@ def check_ring(pid, tier, t0):
         # forgotten drains also occur in the random histories with faults
         rf = random_scenarios(tier, True)
         units.append(run_unit('rand-fault-%s-%d' % (tier, seed()), rf))
+    if pid == 'C17':
+        # byte buffers through std::io (every provided method the traits offer is a call the crate may override)
+        ios, iostats = io_scenarios(tier, ['std'])
+        units.append(run_unit('io-std-%s-%d' % (tier, seed()), ios))
+    if pid == 'C12':
+        # constructors and conversions under injected faults (their ownership clauses are labelled C12 too)
+        fs, fstats = ring_scenarios(tier, 'plain', lambda t, r: FAULTY(t))
+        units.append(run_unit('ring-fault-%s' % tier, fs))
     return judge(pid, units, tier, t0, 'model_checking', cov, COMMON_ASSUME)
 
 
@@ -325,15 +334,44 @@ def check_c04(tier, t0):
     want = lambda t, r: not (t & {'fault_drop', 'fault_user', 'forget', 'ctor'})
     variants = ['back:00', 'back:ff', 'front:5a', 'back:stale', 'front:live'] if tier == 'quick' else \
                ['back:00', 'back:ff', 'back:5a', 'back:stale', 'back:live', 'front:00', 'front:ff', 'front:5a', 'front:stale', 'front:live']
+    groups = {}
     for v in variants:
         scs, stats = ring_scenarios(tier, v, want)
-        units.append(run_unit('ring-C04-%s-%s' % (tier, v), scs))
+        u = run_unit('ring-C04-%s-%s' % (tier, v), scs)
+        units.append(u)
         all_scs += scs[:50]
+        d2 = u.get('digests2', {})
+        for sc in scs:
+            dg = d2.get(sc['id'])
+            if dg and dg != '0000000000000000':
+                groups.setdefault(sc['grp'], {}).setdefault(dg, []).append(sc)
+    # indistinguishability: within a group (same logical contents, same calls; different physical front position, route
+    # to the layout, garbage) every run must show the client the same thing
+    split = [g for g in groups.values() if len(g) > 1]
+    vdir = core.ensure(os.path.join(OUT, 'violations', 'C04'))
+    extra_viol = 0
+    for k, g in enumerate(split):
+        reps = [v[0] for v in g.values()]
+        path = os.path.join(vdir, 'indistinguishable_%d.json' % k)
+        json.dump({'property': 'C04', 'why': 'the same calls on buffers with equal logical contents gave different observable results',
+                   'scenario': reps[0], 'other_scenario': reps[1], 'replay_cmd': 'bin/verif replay ' + path}, open(path, 'w'), indent=1)
+        if k < 8:
+            log('VIOLATION property=C04 replay=%s  (%s in %s vs %s: observable results depend on layout / history / garbage)'
+                % (path, reps[0]['first_op'], reps[0]['id'], reps[1]['id']))
+        extra_viol += 1
     cov = l1_cov(stats)
+    cov['indistinguishability_groups'] = len(groups)
+    cov['indistinguishability_groups_with_several_layouts'] = sum(1 for g in groups.values() if sum(len(v) for v in g.values()) > 1)
     cov['samples'] = sample_of(all_scs)
     cov['garbage_variants'] = variants
-    return judge('C04', units, tier, t0, 'model_checking', cov, COMMON_ASSUME + [
+    rc = judge('C04', units, tier, t0, 'model_checking', cov, COMMON_ASSUME + [
         'a read of unoccupied storage whose value is then discarded is not observable by this technique (DESIGN.md section 10)'])
+    if extra_viol and rc != 2:
+        ev = json.load(open(os.path.join(core.EVID, 'C04.json')))
+        ev['violations'] = ev.get('violations', 0) + extra_viol
+        core.write_evidence('C04', ev)
+        return 1
+    return rc
 
 
 def io_scenarios(tier, fams):
@@ -611,6 +649,12 @@ def setup(argv):
             for res in ex.map(ring_raws, [n for n in ns if n > 4]):
                 for raw, st in res:
                     log('Ring.tla N=%d %s: %d states, %d scenarios (%.0fs)' % (st['n'], ','.join(st['families']), st['states'], st['scenarios'], st['wall_s']))
+    for n in range(0, 6):
+        r = scen.reach(n)
+        if r['reachable_layouts'] != r['all_layouts']:
+            log('Ring.tla N=%d: only %d of %d layouts are reachable from new(): the one-shot initial states over-approximate' % (n, r['reachable_layouts'], r['all_layouts']))
+            return 2
+    log('Ring.tla: every layout (start, size) of the one-shot initial states is reachable from new() for N = 0..5')
     from . import apa
     for r in apa.run_all('quick'):
         log('apalache %s: %s (expected %s) %s' % (r['name'], r['outcome'], r['expected'], 'ok' if r['ok'] else 'FAILED'))
